@@ -17,9 +17,9 @@ META = {
     "assumptions": ["conditions inside parts are from the well-typed alphabet of mc.gen (their leaf meanings "
                     "are C01's business)"],
     "bounds": {
-        "quick": {"paths": "length<=1 over 40 parts, length 2 over a 20-part sub-alphabet, length 3 over a 7-part sub-alphabet",
+        "quick": {"paths": "length<=1 over 42 parts, length 2 over a 20-part sub-alphabet, length 3 over a 7-part sub-alphabet",
                   "documents": "F-struct(4) + F-type flat/two-level + F-deep (asymmetric 3-4 level documents)"},
-        "thorough": {"paths": "length<=2 over 40 parts; length 3 over a 12-part sub-alphabet; length 4 over a 7-part sub-alphabet",
+        "thorough": {"paths": "length<=2 over 42 parts; length 3 over a 12-part sub-alphabet; length 4 over a 7-part sub-alphabet",
                      "documents": "F-struct(4) + F-type + F-deep for length<=2; F-struct(5) + F-deep for length 3; F-deep + F-type for length 4"},
     },
 }
